@@ -135,6 +135,7 @@ static int cmd_worker(int argc, char **argv) {
 		if (budget > 0 && done > 0 && now_s() - t0 > budget) break; // every worker completes at least one run however slow the machine
 		uint64_t run_seed = rt::mix64(rt::mix_str(seed, prop.c_str()), idx);
 		double t1 = now_s();
+		gc.no_dry_run = cold && done == 0;
 		ops::Plan plan = gen::generate(gc, run_seed, idx);
 		plan.warmup_seed = cold ? 0 : warmup_seed;
 		if (cold && done == 0) plan.cold = true;
